@@ -453,6 +453,17 @@ func c02E2E(c *gen.Ctx, in c02E2EIn) c02E2EOut {
 		mode = conformancev1.TestSuite_TEST_MODE_SERVER
 		clientGRPC, serverGRPC = true, false
 		flags.ServerCommand = []string{filepath.Join(c.BinDir, "referenceserver")}
+	} else if in.Mode == "grpcserver" {
+		// the stand-alone gRPC reference server (the binary `make runservertests` uses: its own
+		// process, its own set of linked codecs) against the in-process reference and grpc-go clients
+		mode = conformancev1.TestSuite_TEST_MODE_SERVER
+		clientGRPC, serverGRPC = true, false
+		flags.ServerCommand = []string{filepath.Join(c.BinDir, "grpcserver")}
+	} else if in.Mode == "grpcclient" {
+		// the stand-alone gRPC reference client against the in-process reference and grpc-go servers
+		mode = conformancev1.TestSuite_TEST_MODE_CLIENT
+		clientGRPC, serverGRPC = false, true
+		flags.ClientCommand = []string{filepath.Join(c.BinDir, "grpcclient")}
 	} else if in.Mode == "both" {
 		// neither command: the in-process reference client against the in-process reference server,
 		// both in reference mode (every deviation either peer notices on the wire is a failure of
@@ -782,9 +793,9 @@ func runC02(c *gen.Ctx) error {
 		c.Do("load", in)
 	}
 	// (3) end to end through the real Run
-	nRuns, perRun := 12, 12
+	nRuns, perRun := 14, 12
 	if c.Thorough() {
-		nRuns, perRun = 80, 14
+		nRuns, perRun = 84, 14
 	}
 	allComps := []int{1, 2, 3, 4, 5, 6}
 	var ins []any
@@ -795,6 +806,12 @@ func runC02(c *gen.Ctx) error {
 			in.Mode = "server"
 		case 3:
 			in.Mode = "both"
+		}
+		// the stand-alone gRPC reference peers (what testing/grpc-impls-config.yaml declares for
+		// them: HTTP/2, gRPC, proto, no TLS; identity and gzip)
+		if k%7 == 5 || k%7 == 6 {
+			in.Mode = map[int]string{5: "grpcserver", 6: "grpcclient"}[k%7]
+			in.Versions, in.Protos, in.Codecs, in.Comps = []int{2}, []int{2}, []int{1}, []int{1, 2}
 		}
 		if c.Thorough() && k%5 == 4 {
 			in.Comps = allComps
@@ -807,13 +824,13 @@ func runC02(c *gen.Ctx) error {
 			in.Cases = append(in.Cases, c02GenTC(r, "halfDuplex", 3, 0, true, false), c02GenTC(r, "clientStream", 3, 0, true, false), c02GenTC(r, "unary", 1, 1, false, false))
 		} else {
 			minReq := 0
-			if in.Mode == "client" {
+			if in.Mode == "client" || in.Mode == "grpcclient" {
 				minReq = 1
 			}
 			for i := 0; i < perRun; i++ {
 				in.Cases = append(in.Cases, c02RandomTC(r, true, minReq))
 			}
-			if in.Mode != "client" && k < 8 {
+			if in.Mode != "client" && in.Mode != "grpcclient" && k < 8 {
 				// the empty request stream of every stream type, always
 				in.Cases = append(in.Cases, c02GenTC(r, "clientStream", 0, 0, false, false), c02GenTC(r, "halfDuplex", 0, 0, false, false), c02GenTC(r, "fullDuplex", 0, 0, false, false))
 			}
